@@ -41,6 +41,20 @@ type ucanEntry struct {
 	id   cid.Cid
 }
 
+// unloadableRef: the CID a proof that cannot be loaded is named by - Authority!MissingLink is a CID nobody knows,
+// Authority!AliasOf(d) is another CID over the digest of the stored delegation d (raw / dag-json codec, CIDv0).
+func (w *world) unloadableRef(l absLink, store []absLink, k int) cid.Cid {
+	l.Missing = false
+	for _, d := range store {
+		if fmt.Sprint(d) == fmt.Sprint(l) {
+			if m, err := w.link(d, 1); err == nil {
+				return aliasCid(m.id, k)
+			}
+		}
+	}
+	return missingCid(k)
+}
+
 func cborCid(data []byte) cid.Cid {
 	h, _ := multihash.Sum(data, multihash.SHA2_256, -1)
 	return cid.NewCidV1(cid.DagCBOR, h)
@@ -99,7 +113,7 @@ func ucanReplay(prop string) replayFn {
 			var prf []cid.Cid
 			for i, l := range c.Prf {
 				if l.Missing {
-					prf = append(prf, missingCid(i))
+					prf = append(prf, w.unloadableRef(l, c.Store, i+idx))
 					continue
 				}
 				m, err := w.link(l, 1)
@@ -426,11 +440,19 @@ func storyDriver(seed int64, n int, emit func(any)) error {
 				inv = inv1
 			}
 			prf = found
+			if prf != nil && rng.Intn(5) == 0 {
+				prf = append([]absLink{}, prf...)
+				prf[rng.Intn(len(prf))].Missing = true // the same delegation, named by another CID
+			}
 		}
 		if prf == nil {
 			for k := rng.Intn(4); k > 0; k-- {
 				if rng.Intn(6) == 0 {
 					prf = append(prf, missing)
+				} else if rng.Intn(6) == 0 {
+					a := store[rng.Intn(len(store))]
+					a.Missing = true
+					prf = append(prf, a)
 				} else {
 					prf = append(prf, store[rng.Intn(len(store))])
 				}
@@ -459,7 +481,7 @@ func storyDriver(seed int64, n int, emit func(any)) error {
 		var prfCids []cid.Cid
 		for i, l := range prf {
 			if l.Missing {
-				prfCids = append(prfCids, missingCid(i))
+				prfCids = append(prfCids, w.unloadableRef(l, store, i+it))
 				continue
 			}
 			m, err := w.link(l, 1)
